@@ -33,6 +33,9 @@ type c02Scn struct {
 	WrongKG  bool      `json:"wrong_kg"`
 	Reduced  bool      `json:"reduced"` // reduced mutation alphabet (k=2)
 	UseKG    bool      `json:"use_kg"`
+	// SecondReduced: the full alphabet applies until one mutation has been made,
+	// then the reduced one (k=2 over full x reduced)
+	SecondReduced bool `json:"second_reduced,omitempty"`
 	Username string    `json:"username"`
 }
 
@@ -251,7 +254,7 @@ func c02Exec(scn c02Scn, ch *env.Chooser) *c02Obs {
 		if m := sticky[pt]; m != nil {
 			return []env.Answer{mk(m)}
 		}
-		ms := hsMutations(pt, scn.Suite, scn.Reduced)
+		ms := hsMutations(pt, scn.Suite, scn.Reduced || (scn.SecondReduced && len(o.Applied) > 0))
 		out := []env.Answer{env.Honest()}
 		for i := range ms {
 			out = append(out, mk(&ms[i]))
@@ -384,6 +387,9 @@ func runC02(r *rep.R) {
 			c02Explore(r, scn, 2, &idx)
 			scn = c02Scn{Suite: s, Username: "admin", Reduced: true, WrongPw: true}
 			c02Explore(r, scn, 2, &idx)
+			// full alphabet for the first mutation, reduced for the second
+			scn = c02Scn{Suite: s, Username: "admin", SecondReduced: true}
+			c02Explore(r, scn, 2, &idx)
 		}
 	}
 	r.Bound("deviations_quick", 1)
@@ -396,7 +402,7 @@ func runC02(r *rep.R) {
 }
 
 func c02Explore(r *rep.R, scn c02Scn, bound int, idx *int64) {
-	tag := fmt.Sprintf("c02/%v/pw%v/kg%v/%v/red%v/u%d", scn.Suite, scn.WrongPw, scn.WrongKG, scn.UseKG, scn.Reduced, len(scn.Username))
+	tag := fmt.Sprintf("c02/%v/pw%v/kg%v/%v/red%v/%v/u%d", scn.Suite, scn.WrongPw, scn.WrongKG, scn.UseKG, scn.Reduced, scn.SecondReduced, len(scn.Username))
 	e := &env.Explorer{R: r, Bound: bound, Scenario: tag, Idx: idx,
 		Run: func(ch *env.Chooser) any { return c02Exec(scn, ch) },
 	}
